@@ -71,6 +71,9 @@ def pick_time(rng, expr):
         k = rng.randint(1, 9)
         d = "".join(rng.choice("0123456789") for _ in range(k))
         v["dec"] = rng.choice(["5", "25", "75", "125", d.rstrip("0") or "5", d])
+        if rng.random() < 0.03:
+            # around the dumper's "do not round up to the next unit" threshold 0.9999995
+            v["dec"] = rng.choice(["9999995", "9999996", "99999949", "999999", "9999994", "99999995"])
     if v.get("h") is not None and rng.random() < 0.04 and not any(k in expr for k in ("ii", "nn", "tt")):
         v.update(h=24, m=0 if "m" in v else None, s=0 if "s" in v else None)
         v = {k: x for k, x in v.items() if x is not None}
@@ -222,10 +225,26 @@ def close(a, b):
     return True
 
 
+def close_text(a, b):
+    """Printed texts equal up to one unit in the last printed digit of a fraction: a decimal of more than six digits
+    is a binary float on the implementation side and an exact rational in the model, so a tie in the seventh digit
+    (...5) may round either way (float regime, DESIGN section 10)."""
+    import re
+    fa, fb = re.findall(r"[,.](\d+)", dec(a)), re.findall(r"[,.](\d+)", dec(b))
+    if len(fa) != 1 or len(fb) != 1:
+        return False
+    if re.sub(r"([,.])\d+", r"\1#", dec(a)) != re.sub(r"([,.])\d+", r"\1#", dec(b)):
+        return False
+    return abs(Fraction("0." + fa[0]) - Fraction("0." + fb[0])) <= Fraction(1, 10 ** 6)
+
+
 def judge(c):
     I, M = c.impl, c.model
     res = []
     for l, a, b in zip(c.lines, I, M):
+        if l.startswith("pstr ") and len(c.meta.get("tv", {}).get("dec", "")) > 6 and not a.startswith(("ERR", "EXC")) \
+                and not b.startswith(("ERR", "EXC", "UNMODELLED")) and close_text(a, b):
+            continue
         if not close(a, b) and b != "UNMODELLED":
             res.append(("disagree", "%s: implementation %r, model %r" % (l, a, b)))
     ok, text = c.meta["ok"], c.meta["text"]
